@@ -34,6 +34,7 @@ RULE = (
     "completed-by, inherited defaults, iteration/time based, ramp-up, throughput targets, tags, inline / referenced / bare-string operations); "
     "rendered to a directory: track.json with permuted key order, optionally operations / challenges / a schedule split into parts pulled in by "
     "{{ rally.collect(parts=...) }} (also nested), index bodies and templates as files, 0-4 scalar values anywhere replaced by "
+    "the documented helper {{ rally.exists_set_param(key, param, default_value) }} (a third of them, in track.json and its parts) or by "
     "{{ pN | default(v) }} with the value supplied by the user or defaulted, optional --challenge selection. Half of the cases are negative: "
     "exactly one violation out of 40 kinds (duplicate task/challenge/corpus/operation, no/two default challenges, iterations mixed with time "
     "periods directly or through parallel defaults, four ramp-up rules, unknown / ambiguous completed-by, indices with data streams, unused / "
@@ -100,7 +101,7 @@ NEEDS = {
     "schema/default-not-boolean": {"form": "challenges"},
 }
 KINDS = sorted(NEEDS)
-REQUIRED_CLASSES = {"positive": 300, "positive:inherits-default": 60, "positive:params>=1": 150, "positive:parts": 60, "positive:nontrivial": 30}
+REQUIRED_CLASSES = {"positive": 300, "positive:inherits-default": 60, "positive:params>=1": 150, "positive:parts": 60, "positive:nontrivial": 30, "positive:exists_set_param-helper": 60}
 REQUIRED_CLASSES.update({f"violation:{k}": 4 for k in KINDS})
 
 _DIR = {"root": None, "n": 0}
@@ -145,7 +146,7 @@ def _case(draw, tier):
         kw["max_elements"] = 6
     model = draw(T.track_models(**kw))
     n_params = draw(st.sampled_from([0, 1, 1, 2, 3, 4]))
-    params = [{"site": draw(st.integers(0, 10_000)), "supplied": draw(st.booleans())} for _ in range(n_params)]
+    params = [{"site": draw(st.integers(0, 10_000)), "supplied": draw(st.booleans()), "helper": draw(st.sampled_from([False, False, True]))} for _ in range(n_params)]
     layout = {
         "order": draw(st.integers(0, 50)),
         "indent": draw(st.sampled_from([2, None])),
@@ -505,6 +506,8 @@ def run_case(case, obs):
             obs.cls("positive:param-supplied")
         if parts:
             obs.cls("positive:parts")
+        if r.get("helpers"):
+            obs.cls("positive:exists_set_param-helper")
         if model["corpora"]:
             obs.cls("positive:corpora")
         if len(model["challenges"]) > 1:
